@@ -8,6 +8,7 @@ one() {
   exp=$(python3 -c "import json,sys; print(json.load(open(sys.argv[1])).get('expected','silent'))" "$d/meta.json" 2>/dev/null)
   if [ -z "$out" ]; then echo "$id silent";
   elif [ "$exp" = "inconclusive" ] && ! echo "$out" | grep -q "exit=1"; then echo "$id no verdict (as recorded)";
+  elif [ "$exp" = "false-alarm-recorded" ]; then echo "$id not silent (recorded as an open false alarm, DESIGN 8e round 4)";
   else echo "## $id NOT SILENT"; echo "$out"; fi
 }
 if [ "$1" = "--one" ]; then one "$2"; exit 0; fi
